@@ -126,7 +126,8 @@ func (c *BindingManager) RemoveBinding(data model.BindingManagementDeleteCallTyp
 	for _, item := range c.bindingEntries {
 		itemAddress := item.ClientFeature.Address()
 
-		if !reflect.DeepEqual(*itemAddress, clientAddress) &&
+		// keep every entry that differs in the client or in the server feature
+		if !reflect.DeepEqual(*itemAddress, clientAddress) ||
 			!reflect.DeepEqual(item.ServerFeature, serverFeature) {
 			newBindingEntries = append(newBindingEntries, item)
 		}
